@@ -393,6 +393,16 @@ class Loop:
         omega = self.xs(x1, "omega_wb_b", 3)
         pw = self.xs(x1, "position_op_w", 3)
         vb = self.xs(x1, "velocity_w_p_b", 3)
+        _NRES = {"input_velocity": 6, "position_control": 3, "se23_position_control": 3, "attitude_rate_control": 5, "f_alloc": 5}
+
+        class _First(dict):          # results appended to a controller function are none of the loop's business
+            def __getitem__(self_, k):
+                f_ = dict.__getitem__(self_, k)
+                n_ = _NRES.get(k)
+                if n_ is None or f_.n_out() <= n_:
+                    return f_
+                return lambda *a, _f=f_, _n=n_: _f(*a)[:_n]
+        eqs = _First(eqs)
         vw = eqs["rotate_vector_b_to_w"](q, vb)
         # update_controller, input_mode == "velocity"
         aetr = cs("input_aetr")
